@@ -102,14 +102,16 @@ fn struct_field_unmarshal(fields: &syn::Fields) -> TokenStream {
     let field_types = fields.iter().map(|field| field.ty.to_token_stream());
 
     quote! {
-            ctx.align_to(8)?;
+            ctx.in_container(1, |ctx| {
+                ctx.align_to(8)?;
 
-            let this = Self{
-                #(
-                    #field_names: <#field_types as ::rustbus::Unmarshal>::unmarshal(ctx)?,
-                )*
-            };
-            Ok(this)
+                let this = Self{
+                    #(
+                        #field_names: <#field_types as ::rustbus::Unmarshal>::unmarshal(ctx)?,
+                    )*
+                };
+                Ok(this)
+            })
     }
 }
 fn struct_field_sigs(fields: &syn::Fields) -> TokenStream {
